@@ -1,0 +1,64 @@
+//go:build verif
+// +build verif
+
+package raft
+
+// Verification hooks (build tag "verif") for the conformance harness in /verif:
+// events at the boundaries of the ready loop (the hook may block, or end the
+// goroutine with runtime.Goexit to model a crash), access to the raft node for
+// harness-driven ticks, and a channel to request a local snapshot.
+
+import (
+	"github.com/marekgalovic/anndb/storage/wal"
+
+	etcdRaft "github.com/coreos/etcd/raft"
+	"github.com/coreos/etcd/raft/raftpb"
+	uuid "github.com/satori/go.uuid"
+)
+
+// VerifHook(group, point, ready, entry, err): points are "ready", "send1", "presave",
+// "saved", "snapinstalled", "applied" (entry set), "send2", "preadvance", "advanced",
+// "snapshot" (err = result of trySnapshot).
+var VerifHook func(g *RaftGroup, point string, rd *etcdRaft.Ready, entry *raftpb.Entry, err error)
+
+// VerifStart(nodeId, peers, storage) is called before the raft node is created.
+var VerifStart func(id uint64, nodeIds []uint64, storage wal.WAL)
+
+func verifHook(g *RaftGroup, point string, rd *etcdRaft.Ready, entry *raftpb.Entry, err error) {
+	if h := VerifHook; h != nil {
+		h(g, point, rd, entry, err)
+	}
+}
+
+func verifStart(id uint64, nodeIds []uint64, storage wal.WAL) {
+	if h := VerifStart; h != nil {
+		h(id, nodeIds, storage)
+	}
+}
+
+var verifSnapshotChans = make(map[*RaftGroup]chan uint64)
+var verifSnapshotMu = make(chan struct{}, 1)
+
+func (this *RaftGroup) verifSnapshotC() chan uint64 {
+	verifSnapshotMu <- struct{}{}
+	defer func() { <-verifSnapshotMu }()
+	c, ok := verifSnapshotChans[this]
+	if !ok {
+		c = make(chan uint64)
+		verifSnapshotChans[this] = c
+	}
+	return c
+}
+
+// VerifRequestSnapshot asks the ready loop to run trySnapshot(lastAppliedIdx, skip).
+func (this *RaftGroup) VerifRequestSnapshot(skip uint64) { this.verifSnapshotC() <- skip }
+
+func (this *RaftGroup) VerifNode() etcdRaft.Node { return this.raft }
+func (this *RaftGroup) VerifId() uuid.UUID       { return this.id }
+func (this *RaftGroup) VerifNodeId() uint64      { return this.transport.nodeId }
+func (this *RaftGroup) VerifIsLeader() bool      { return this.isLeader() }
+func (this *RaftGroup) VerifForget() {
+	verifSnapshotMu <- struct{}{}
+	delete(verifSnapshotChans, this)
+	<-verifSnapshotMu
+}
